@@ -86,6 +86,10 @@ QuotLead == {x \in [op : {"polyq"}, bits : {2, 7, 12}, len : 1..17, lead : {"11"
 BigBits == {64, 150, 151, 245, 246, 280, 281, 310, 311, 320, 400, 500}
 BigLg == {10, 12, 13, 14} \cup (IF SizeCap > 1 THEN {15, 16} ELSE {})
 ConvBig == [op : {"conv_big"}, alg : {"ss_public", "ntt"}, bits : BigBits, lg : BigLg, pat : {"ptop", "prand", "sparse"}]
+\* full-size period-2 operands through the public dispatcher at every second modulus size in the ten bits above
+\* each packing-class limit (a limit moved by a few bits overflows a slot only once 2 bits + log2 size exceeds it)
+EdgeBits == {152, 154, 156, 158, 160, 247, 249, 251, 253, 255, 282, 284, 286, 288, 290, 312, 314, 316, 318}
+ConvBigEdge == [op : {"conv_big"}, alg : {"ss_public"}, bits : EdgeBits, lg : {10, 13} \cup (IF SizeCap > 1 THEN {15} ELSE {}), pat : {"ptop"}]
 
 Name(x) ==
   CASE x.op = "fint" -> [op |-> "fint", N |-> x.N, fop |-> FIntOps[x.fop], pa |-> FPats[x.pa], pb |-> FPats[x.pb]]
@@ -100,7 +104,7 @@ Name(x) ==
     [] x.op = "polyq" -> [op |-> "poly", pop |-> "quot", bits |-> BitsSet[x.bits], len |-> QuotLens[x.len],
                           lenpat |-> x.lead, coef |-> Coefs[x.coef], ntt |-> x.ntt]
 
-Init == s \in FInt \cup ConvSS \cup ConvNTT \cup Poly \cup PolyTiny \cup QuotLead \cup ConvBig
+Init == s \in FInt \cup ConvSS \cup ConvNTT \cup Poly \cup PolyTiny \cup QuotLead \cup ConvBig \cup ConvBigEdge
 Next == UNCHANGED s
 Emit == PrintT(<<"SHAPE", ToJson(Name(s))>>)
 =============================================================================
